@@ -21,7 +21,7 @@ import (
 func init() { register(&family{name: "life", run: runLife}) }
 
 type lifeOp struct {
-	Kind string `json:"kind"` // open | create | start | write | term | drop | close | cad
+	Kind string `json:"kind"` // open | create | start | write | term | drop | close | cad | block | release
 	H    int    `json:"h,omitempty"`
 	F    int    `json:"f,omitempty"`
 	Coll string `json:"coll,omitempty"`
@@ -35,10 +35,13 @@ type lifeInput struct {
 
 type lifeFeed struct {
 	id   int
+	dump bool
 	term chan bool
 	done chan struct{}
 	got  int64
 	late int64
+	gate int32         // 0 open, 1 armed (the next callback invocation blocks), 2 holding
+	rel  chan struct{} // closed to let a holding callback return
 }
 
 var lifeSerial int64
@@ -64,6 +67,12 @@ func execLife(in lifeInput, scratch string) (Case, error) {
 	docs := 0
 	deleted := false
 	defer func() {
+		for _, f := range feeds {
+			if atomic.LoadInt32(&f.gate) == 2 {
+				close(f.rel)
+			}
+			atomic.StoreInt32(&f.gate, 0)
+		}
 		if !deleted {
 			for _, f := range feeds {
 				select {
@@ -141,7 +150,7 @@ func execLife(in lifeInput, scratch string) (Case, error) {
 					}
 					if exists {
 						if ds, e := h.NamedDataStore(dsName(op.Coll)); e == nil {
-							f := &lifeFeed{id: op.F, term: make(chan bool), done: make(chan struct{})}
+							f := &lifeFeed{id: op.F, dump: op.Dump, term: make(chan bool), done: make(chan struct{}), rel: make(chan struct{})}
 							args := sgbucket.FeedArguments{ID: fmt.Sprintf("life%d", op.F), Backfill: sgbucket.FeedNoBackfill, Terminator: f.term, DoneChan: f.done}
 							if op.Dump {
 								args.Backfill, args.Dump = 0, true
@@ -152,6 +161,9 @@ func execLife(in lifeInput, scratch string) (Case, error) {
 										atomic.AddInt64(&f.late, 1)
 									}
 									atomic.AddInt64(&f.got, 1)
+									if atomic.CompareAndSwapInt32(&f.gate, 1, 2) {
+										<-f.rel
+									}
 								}
 								return true
 							}, nil)
@@ -196,6 +208,26 @@ func execLife(in lifeInput, scratch string) (Case, error) {
 					for _, n := range names {
 						if n.ScopeName()+"."+n.CollectionName() == op.Coll {
 							ok = h.DropDataStore(dsName(op.Coll)) == nil
+						}
+					}
+				}
+			case "block":
+				opT = C("LBlock", N(uint64(op.F)))
+				for _, f := range feeds {
+					if f.id == op.F && !f.dump && !ended(f) && atomic.LoadInt32(&f.gate) == 0 {
+						atomic.StoreInt32(&f.gate, 1)
+					}
+				}
+			case "release":
+				opT = C("LRelease", N(uint64(op.F)))
+				for _, f := range feeds {
+					if f.id == op.F {
+						if atomic.CompareAndSwapInt32(&f.gate, 1, 0) {
+							// was armed, never held
+						} else if atomic.LoadInt32(&f.gate) == 2 {
+							close(f.rel)
+							f.rel = make(chan struct{})
+							atomic.StoreInt32(&f.gate, 0)
 						}
 					}
 				}
@@ -273,19 +305,61 @@ func genLife(r *rand.Rand) lifeInput {
 	}
 	nf := 0
 	n := 6 + r.Intn(14)
+	var blocked []int
+	feedColl := map[int]string{}
 	for i := 0; i < n; i++ {
 		h := anyOpen()
 		if h < 0 {
 			break
 		}
+		// a slow consumer: block a feed's callback, let events queue up behind it, end things, release
+		if nf > 0 && r.Intn(6) == 0 {
+			f := r.Intn(nf)
+			add(lifeOp{Kind: "block", F: f})
+			blocked = append(blocked, f)
+			if r.Intn(3) > 0 {
+				// events pile up behind the blocked callback, then the feed is ended one way or another
+				for j := 0; j < 2+r.Intn(2); j++ {
+					add(lifeOp{Kind: "write", H: h, Coll: feedColl[f]})
+				}
+				switch r.Intn(4) {
+				case 0:
+					add(lifeOp{Kind: "term", F: f})
+				case 1:
+					if feedColl[f] != "_default._default" {
+						add(lifeOp{Kind: "drop", H: h, Coll: feedColl[f]})
+						for k := range colls {
+							if colls[k] == feedColl[f] {
+								colls = append(colls[:k], colls[k+1:]...)
+								break
+							}
+						}
+					}
+				case 2:
+					add(lifeOp{Kind: "write", H: h, Coll: pick(r, colls)})
+				}
+			}
+			continue
+		}
+		if len(blocked) > 0 && r.Intn(5) == 0 {
+			add(lifeOp{Kind: "release", F: blocked[0]})
+			blocked = blocked[1:]
+			continue
+		}
 		switch x := r.Intn(20); {
 		case x < 5:
-			add(lifeOp{Kind: "start", F: nf, H: h, Coll: pick(r, colls), Dump: r.Intn(4) == 0})
+			cn := pick(r, colls)
+			add(lifeOp{Kind: "start", F: nf, H: h, Coll: cn, Dump: r.Intn(4) == 0})
+			feedColl[nf] = cn
 			nf++
 		case x < 11:
 			add(lifeOp{Kind: "write", H: h, Coll: pick(r, colls)})
 		case x < 14 && nf > 0:
 			add(lifeOp{Kind: "term", F: r.Intn(nf)})
+			if len(blocked) > 0 && r.Intn(2) == 0 {
+				add(lifeOp{Kind: "release", F: blocked[0]})
+				blocked = blocked[1:]
+			}
 		case x < 16 && len(colls) > 1:
 			k := 1 + r.Intn(len(colls)-1)
 			add(lifeOp{Kind: "drop", H: h, Coll: colls[k]})
@@ -295,6 +369,9 @@ func genLife(r *rand.Rand) lifeInput {
 			open[h] = false
 		case x == 19 && i > 4:
 			add(lifeOp{Kind: "cad", H: h})
+			for _, f := range blocked {
+				add(lifeOp{Kind: "release", F: f})
+			}
 			return in
 		}
 	}
@@ -303,12 +380,15 @@ func genLife(r *rand.Rand) lifeInput {
 		if h := anyOpen(); h >= 0 {
 			add(lifeOp{Kind: "cad", H: h})
 		}
-		return in
-	}
-	for h := 0; h < nh; h++ {
-		if open[h] {
-			add(lifeOp{Kind: "close", H: h})
+	} else {
+		for h := 0; h < nh; h++ {
+			if open[h] {
+				add(lifeOp{Kind: "close", H: h})
+			}
 		}
+	}
+	for _, f := range blocked {
+		add(lifeOp{Kind: "release", F: f})
 	}
 	return in
 }
